@@ -1002,6 +1002,10 @@ class ExprMixin:
             raise Unsupported(f"callee {qname} missing")
         fdef, mi, ci = found
         if c is None:
+            # a module-level function without a contract is executed in place (exact semantics, like a nested function):
+            # extracting a helper must not lose the proof
+            if ci is None:
+                return self.inline(st, (fdef, {}, mi, None), args, kwargs, node)
             raise Unsupported(f"callee {qname} has no contract")
         env = self.bind_args(fdef, args, dict(kwargs), node)
         return self.apply_contract(st, c, fdef, mi, env, node)
@@ -1027,6 +1031,9 @@ class ExprMixin:
                 return self.apply_contract(st, c, fm[0], self.src.modules[fm[1].module], env, node)
             if fm is None:
                 return self.external_method(st, recv, name, args, kwargs, node)
+            if name.startswith("__") and not name.endswith("__"):
+                # a name-mangled private method cannot be overridden by a subclass: executed in place
+                return self.inline(st, (fm[0], {}, self.src.modules[fm[1].module], fm[1]), args, kwargs, node, self_v=recv)
             raise Unsupported(f"method {ci.name}.{name} has no contract")
         raise Unsupported(f"method {name} on {recv.t} at {self.loc(node)}")
 
